@@ -313,7 +313,13 @@ def call_parse(case):
     fc.__enter__()
     res["clock0"] = fc.shifted(dt_to_list(_dt.datetime.now()))
     res["uclock0"] = fc.shifted(dt_to_list(_dt.datetime.now(_dt.timezone.utc).replace(tzinfo=None)))
+    # how the settings reach the library: as a dict (default), as a Settings object made with settings.replace(...),
+    # or as a dict that the caller empties again once the parser is built
+    via = case.get("via") if st else None
     try:
+        if via == "instance":
+            from dateparser.conf import settings as _defaults
+            st = _defaults.replace(**st)
         if case.get("api", "ddp") == "parse":
             d = dateparser.parse(case["s"], settings=st, **kw)
             res["out"] = dt_to_list(d)
@@ -321,6 +327,8 @@ def call_parse(case):
         else:
             fmts = kw.pop("date_formats", None)
             p = DateDataParser(settings=st, **kw)
+            if via == "cleared":
+                st.clear()
             dd = p.get_date_data(case["s"], fmts)
             d = dd["date_obj"]
             res["out"] = dt_to_list(d)
